@@ -197,7 +197,7 @@ def run_futdiff(ctx, spec, order=None, rng=None):
         perm = [list(c) for c in perm]
         case = c11_driver.Case('prompt')
         try:
-            for call in spec['creation'] + [['future', 1]] * spec['futures']:
+            for call in spec['creation'] + [['future', w] for w in spec.get('widths', [1] * spec['futures'])]:
                 case.step(call)
             witness = {'mode': 'futdiff', 'spec': spec, 'order': perm}
             ctx.count('evaluations')
